@@ -165,6 +165,10 @@ func pwNewCall(c *pwCall, syncf func(), wire bool) *pwCallState {
 			m = pwWireMessage(rn.req, serial)
 		} else {
 			m = rn.req.message(serial)
+			// handlers find their item through the payload pointer (ids are arbitrary bytes, see payloadReg)
+			for i := range m.BatchItem {
+				payloadReg.Store(m.BatchItem[i].RequestPayload, payloadRef{st, i})
+			}
 		}
 		m.Header.ClientCorrelationValue = id
 		cs.runs, cs.msgs, cs.serials = append(cs.runs, st), append(cs.msgs, m), append(cs.serials, serial)
@@ -179,6 +183,11 @@ func (cs *pwCallState) release() {
 	}
 	for _, s := range cs.serials {
 		reqRegistry.Delete(s)
+	}
+	for _, m := range cs.msgs {
+		for i := range m.BatchItem {
+			payloadReg.Delete(m.BatchItem[i].RequestPayload)
+		}
 	}
 	pwCalls.Delete(cs.id)
 }
